@@ -62,16 +62,12 @@ func (d *Deduplicator) NotifyDKGStarted(
 
 	// The cache key is the hexadecimal representation of the seed.
 	cacheKey := newDKGSeed.Text(16)
-	// If the key is not in the cache, that means the seed was not handled
-	// yet and the client should proceed with the execution.
-	if !d.dkgSeedCache.Has(cacheKey) {
-		d.dkgSeedCache.Add(cacheKey)
-		return true
-	}
-
-	// Otherwise, the DKG seed is a duplicate and the client should not proceed
-	// with the execution.
-	return false
+	// Add checks the presence of the key and adds it in one atomic step so
+	// concurrent notifications about the same seed cannot both succeed. If the
+	// key was not in the cache, that means the seed was not handled yet and
+	// the client should proceed with the execution. Otherwise, the DKG seed
+	// is a duplicate and the client should not proceed with the execution.
+	return d.dkgSeedCache.Add(cacheKey)
 }
 
 // NotifyRelayEntryStarted notifies the client wants to start relay entry
